@@ -100,3 +100,15 @@ Print Assumptions C02_enum_negative_refuted.
 Example C02_hypotheses_hold : file_ok api0 ex_tab ex_file = true.
 Proof. exact ex_file_ok. Qed.
 Print Assumptions C02_hypotheses_hold.
+
+(* selective generation (service yaml selective_gapic_generation, omitting mode): when the allow-list is closed under the
+   package-local types of fields, under nested types of a kept top-level class and under the enclosing top-level class of a kept
+   type (what the fixed point in API.build establishes), every package-local type reference printed inside an emitted class
+   denotes a class that is emitted as well.  Proofs.Types.sx_once_not_closed: after a single sweep of the enclosing-message rule
+   the hypothesis and the conclusion both fail on rpc -> Outer.Mid, Outer.inner : Other.Inner.  The allow-list itself is not
+   modelled here (C16 models which types are kept); the direct oracle of the check judges the libraries /repo emits. *)
+Theorem C02_selective_refs_emitted : forall kept decls,
+  closed kept decls = true ->
+  forall r, In r (printed_refs kept decls) -> emitted kept r = true.
+Proof. exact closure_refs_emitted. Qed.
+Print Assumptions C02_selective_refs_emitted.
